@@ -101,12 +101,24 @@ def _include_subclasses_without_union_strategy(
         def cls_is_cl(cls, _cl=cl):
             return cls is _cl
 
-        if overrides is not None:
-            base_struct_hook = make_dict_structure_fn(cl, converter, **overrides)
-            base_unstruct_hook = make_dict_unstructure_fn(cl, converter, **overrides)
-        else:
-            base_struct_hook = converter.get_structure_hook(cl)
-            base_unstruct_hook = converter.get_unstructure_hook(cl)
+        # A field typed as a class of the tree that is processed later must not be
+        # bound to that class's current (plain) hooks: as in the union strategy
+        # variant below, force runtime dispatch for the other classes of the tree
+        # while this class's own hooks are generated (and do not cache them).
+        already_generating.working_set = set(parent_subclass_tree) - {cl}
+        try:
+            if overrides is not None:
+                base_struct_hook = make_dict_structure_fn(cl, converter, **overrides)
+                base_unstruct_hook = make_dict_unstructure_fn(
+                    cl, converter, **overrides
+                )
+            else:
+                base_struct_hook = converter.get_structure_hook(cl, cache_result=False)
+                base_unstruct_hook = converter.get_unstructure_hook(
+                    cl, cache_result=False
+                )
+        finally:
+            already_generating.working_set = set()
 
         if subclass_union is None:
 
